@@ -44,6 +44,80 @@ CHECKS = {
             "the smallest grid and every coarse grid is re-checked. Assertions on, ASan+UBSan.",
             "Trusted: the reference numbering written from the documented layout.",
             "DESIGN.md 5/C17"),
+    "C01": ("cfglat", "exploration",
+            "exhaustive enumeration of the option lattice of the assembled solver with an independent residual oracle",
+            "The full cross product of the core options (3 geometries x 3 problems x 7 coefficient classes x boundary x "
+            "strategy x extrapolation x cycle = 2268 configurations on 17x32, plus mode 2) and every configuration within "
+            "1 (quick) / 2 (thorough) deviations of 6 representative cores in the secondary options are solved through "
+            "the public API. Each run must converge with a reduction factor < 1, and every early stop is re-judged with a "
+            "residual recomputed from nothing but the returned vector and the problem data.",
+            "Exploration, not model checking: tolerances, mesh widths and geometry parameters are a continuum covered on a "
+            "declared alphabet. Trusted: the independent residual in harness/gmgcfg.h (other strategy's operator, own rhs).",
+            "DESIGN.md 5/C01"),
+    "C03": ("opalg", "model_checking",
+            "exhaustive basis enumeration (all unit vectors) x grid-shape lattice, dense reference stencil oracle",
+            "For every case of the grid-shape lattice the residual operator is extracted column by column on ALL unit "
+            "vectors for give x 4 cache combinations and take, with 1 and 3 threads, on every level of the coarsening "
+            "chain built as setup() builds it; all matrices must equal each other and an independently written dense "
+            "assembler of the documented 9-/7-point stencil, Dirichlet rows must be identity rows, the affine part exact, "
+            "and coarse caches must equal a fresh evaluation. The operator is linear, so its action on a basis is the operator.",
+            "Trusted: the reference stencil (checks/opalg_lib.py), numpy. Bounded by the lattice (nr<=11(17), ntheta<=16(32)).",
+            "DESIGN.md 5/C03"),
+    "C04": ("opalg", "model_checking",
+            "exhaustive basis enumeration: every unit right-hand side solved, judged by the other strategy's residual",
+            "Both direct solvers solve EVERY unit right-hand side (and 6 wide-dynamic-range ones) on every lattice case down "
+            "to the smallest hierarchy grid 5x4, assembled with 1 and 3 threads; each solution is fed to the other "
+            "strategy's residual operator (row-wise backward error), the two inverses are compared, and the assembled CSR "
+            "matrix is compared entry by entry with the operator.",
+            "Trusted: numpy matrix products; thresholds in units of eps*(|A||x|+|b|) with >=100x margin over the clean tree.",
+            "DESIGN.md 5/C04"),
+    "C05": ("opalg", "model_checking",
+            "exhaustive entrywise symmetry / spectral check of the extracted operator and of every stored line block",
+            "The interior block of the extracted operator (both strategies, 1 and 3 threads) is compared with its transpose "
+            "for ALL index pairs and its spectrum is computed; every line matrix stored by SmootherGive (4 cache "
+            "combinations) and SmootherTake is read before its first solve and compared with the operator's principal "
+            "block and tested for positive definiteness. Holding entrywise, symmetry and definiteness hold for all vectors.",
+            "Trusted: LAPACK eigenvalues via numpy.",
+            "DESIGN.md 5/C05"),
+    "C06": ("opalg", "model_checking",
+            "exhaustive basis enumeration of the affine sweep map (S, B) x lattice, algebraic identities as oracle",
+            "A sweep is affine, x' = S x + B f. S and B are extracted on all unit iterates / right-hand sides for give x 4 "
+            "cache combinations and take, with 1 and 3 threads. Oracles: S + B A = I (every exact solution is a fixed point "
+            "for every f), the residual map vanishes on every row of the colour updated last (and does NOT on the other "
+            "colour), Dirichlet rows exact, all variants agree, and the energy norm of the error propagator is <= 1.",
+            "Trusted: numpy/LAPACK; admissible grids only (ntheta % 4 == 0, >= 2 circles, >= 3 radial nodes).",
+            "DESIGN.md 5/C06"),
+    "C07": ("opalg", "model_checking",
+            "exhaustive basis enumeration + bitwise alphabet test of the extrapolated sweep",
+            "As C06 for ExtrapolatedSmootherGive/Take (1 and 3 threads) on every admissible finest-level case, plus 8 iterates "
+            "per variant whose coarse-node entries run through a double alphabet (0, -0, denormal, 1e+-150, ...) and are "
+            "compared by memcmp after the sweep; S coarse rows = e_i and B coarse rows = 0 exactly.",
+            "Trusted: numpy; nr odd, >= 3 circles (the smoother asserts otherwise).",
+            "DESIGN.md 5/C07"),
+    "C08": ("opalg", "model_checking",
+            "exhaustive basis enumeration of all transfer operators on every fine/coarse pair of the lattice",
+            "P, P0, Pex, Pex0, R, R0, Rex, Rex0, injection and FMG interpolation are extracted on every unit vector for every "
+            "pair (every split on the fine level, automatic and explicit coarse splits, 5x3 spacing patterns). Adjoint "
+            "identities, optimised == reference, injection o prolongation = I, non-negative weights, row sums and linear "
+            "reproduction (row by row, local angles) are checked; rows failing exactly as the recorded weight defect F2 "
+            "predicts are reported as KNOWN-FINDING, any other failing row is a violation.",
+            "Trusted: numpy. Grids above 10 000 nodes (parallel branches of the transfers) are covered by C11/C12.",
+            "DESIGN.md 5/C08"),
+    "C09": ("opalg+histbfs", "model_checking",
+            "exhaustive basis enumeration of the FMG interpolation + enumeration of start-up configurations x object histories",
+            "Part 1: the FMG interpolation matrix of every grid pair is judged row by row (coarse copy, constants, support, "
+            "tensor-cubic exactness / cubic-linear next to the boundaries). Part 2: for L in 2..4(5) levels x FMG cycle x "
+            "FMG iterations {0,1,2} x extrapolation x strategy the start vector (maxIterations = 0) must be bitwise "
+            "identical over 5 object histories and equal the harness's nested iteration; accuracy judged with 2 cycles.",
+            "Trusted: the harness-side nested iteration (same operators, documented order).",
+            "DESIGN.md 5/C09"),
+    "C13": ("histbfs", "model_checking",
+            "explicit enumeration of all operation histories (option block, setup, solve x n) up to depth 2/3 on one object",
+            "All histories of up to 2 (quick) / 3 (thorough) blocks over 6 / 8 option tuples, each block = setters, setup(), "
+            "1 or 2 solve() calls, run on ONE solver object; after every solve the observation (solution bitwise, "
+            "iterations, reduction factor, error figures) must equal a freshly constructed solver's.",
+            "Trusted: a fresh object is the specification. Input functions are fixed per object.",
+            "DESIGN.md 5/C13"),
 }
 
 NOT_YET = {}
@@ -87,7 +161,12 @@ def main():
         "engines": [
             {"name": "enumerators", "path": "harness/", "serves_properties": ["C14", "C16", "C17"],
              "kind_free_text": "nested-loop exhaustive enumerators over finite alphabets on the real classes"},
-            {"name": "histbfs", "path": "harness/c15_copymove.cpp", "serves_properties": ["C15"],
+            {"name": "opalg", "path": "harness/opalg.cpp + checks/opalg_lib.py", "serves_properties": ["C03", "C04", "C05", "C06", "C07", "C08", "C09", "C10"],
+             "kind_free_text": "operator algebra by exhaustive basis enumeration: real operators applied to every unit "
+                               "vector on every case of a grid-shape lattice, numpy oracles"},
+            {"name": "cfglat", "path": "harness/gmg.cpp + checks/gmg_lib.py", "serves_properties": ["C01", "C02", "C09", "C13", "C20"],
+             "kind_free_text": "option-lattice enumeration of the assembled solver through its public API"},
+            {"name": "histbfs", "path": "harness/c15_copymove.cpp, harness/gmg.cpp (hist, fmgstart)", "serves_properties": ["C09", "C13", "C15"],
              "kind_free_text": "explicit-state breadth-first search over operation histories on live objects, "
                                "state = replayed history, dedup by canonical visible+hidden state"},
         ],
